@@ -59,8 +59,10 @@ pub fn exec(toks: &[&str]) -> String {
     let mut i = 1;
     // environment modifiers, irrelevant to the protocol: `@old` = the prior file was last modified two
     // hours ago (stores through a mapping do not refresh st_mtime), `@bin` = its name is not valid UTF-8
-    let (mut old, mut bin) = (false, false);
-    while toks[i].starts_with('@') { match toks[i] { "@old" => old = true, "@bin" => bin = true, _ => return "bad-modifier".into() } i += 1; }
+    // `@uid` = the restart happens under uid 65534, which owns the directory but not the file root left there
+    // `@link` = the segment path is a symbolic link to the file (a runtime directory laid out by a packaging script)
+    let (mut old, mut bin, mut uid, mut link) = (false, false, false, false);
+    while toks[i].starts_with('@') { match toks[i] { "@old" => old = true, "@bin" => bin = true, "@uid" => uid = true, "@link" => link = true, _ => return "bad-modifier".into() } i += 1; }
     let prior = toks[i]; i += 1;
     // `valid <gen> <k>` (layout version 1), `validv <version> <gen> <k>` or `foreign <gen> <k>` (version 1,
     // wrong second magic word)
@@ -71,12 +73,16 @@ pub fn exec(toks: &[&str]) -> String {
     let k2: u64 = toks[i + 2].parse().unwrap();
     let path: std::path::PathBuf = {
         use std::os::unix::ffi::OsStringExt;
-        let mut b = format!("{}/crash-shm", scratch_dir()).into_bytes();
+        let dir = if uid { let d = format!("{}/crash-uid", scratch_dir()); let _ = std::fs::remove_dir_all(&d); std::fs::create_dir_all(&d).unwrap(); d } else { scratch_dir() };
+        let mut b = format!("{}/crash-shm", dir).into_bytes();
         if bin { b.extend_from_slice(b".\xE9\xFF"); }
         std::ffi::OsString::from_vec(b).into()
     };
     let _ = std::fs::remove_file(&path);
     let _ = std::fs::remove_dir_all(&path);
+    // with `@link` the prior content goes to `<path>.real` and the path itself is a symbolic link to it
+    let link_path = path.clone();
+    let path: std::path::PathBuf = if link { let mut r = path.clone().into_os_string(); r.push(".real"); let r: std::path::PathBuf = r.into(); let _ = std::fs::remove_file(&r); r } else { path };
     let header_m = |magic1: u32, ver: u16, gen: u16, cells: [u64; 7]| {
         let mut b = Vec::new();
         b.extend_from_slice(&0x414D5A4Eu32.to_ne_bytes()); b.extend_from_slice(&magic1.to_ne_bytes());
@@ -95,6 +101,8 @@ pub fn exec(toks: &[&str]) -> String {
         "foreign" => std::fs::write(&path, header_m(0x43420100, 1, pg as u16, rec_cells(pk))).unwrap(),
         _ => return "bad-prior".into(),
     }
+    // from here on everybody (writer, readers, observations) uses the link; metadata() follows it
+    let path: std::path::PathBuf = if link { let _ = std::fs::remove_file(&link_path); std::os::unix::fs::symlink(&path, &link_path).unwrap(); link_path } else { path };
     let c = { use std::os::unix::ffi::OsStrExt; CString::new(path.as_os_str().as_bytes()).unwrap() };
     if old && path.exists() {
         let t = libc::timespec { tv_sec: unsafe { libc::time(std::ptr::null_mut()) } - 7200, tv_nsec: 0 };
@@ -126,7 +134,18 @@ pub fn exec(toks: &[&str]) -> String {
     };
     // restart: a new writer over whatever is there, then one publication
     let p3 = path.clone();
-    let r = guarded(std::panic::AssertUnwindSafe(move || { let mut w = ShmWriter::new(&p3).expect("new"); w.write(&record_of(k2)); }));
+    let r = if uid {
+        // the directory (and the way to it) belongs to the service account; the file, if any, stays root's, mode 0644
+        use std::os::unix::fs::PermissionsExt;
+        let dir = path.parent().unwrap().to_path_buf();
+        let cdir = CString::new(dir.to_str().unwrap()).unwrap();
+        unsafe { libc::chown(cdir.as_ptr(), 65534, 65534); }
+        let _ = std::fs::set_permissions(&dir, std::fs::Permissions::from_mode(0o755));
+        let t = crate::header::in_unprivileged_child(move || { match ShmWriter::new(&p3) { Ok(mut w) => { w.write(&record_of(k2)); "ok".to_string() } Err(_) => "refused".to_string() } });
+        if t == "ok" { Ok(()) } else { Err(()) }
+    } else {
+        guarded(std::panic::AssertUnwindSafe(move || { let mut w = ShmWriter::new(&p3).expect("new"); w.write(&record_of(k2)); }))
+    };
     let inode_after = std::fs::metadata(&path).map(|m| m.ino()).unwrap_or(0);
     let len2 = std::fs::metadata(&path).map(|m| m.len() as i64).unwrap_or(-1);
     let mut fresh = ShmReader::new(&c).ok();
@@ -137,7 +156,7 @@ pub fn exec(toks: &[&str]) -> String {
     // permission bits of the segment file: other users' clients must be able to read it
     let mode = std::fs::metadata(&path).map(|m| m.mode() & 0o777).unwrap_or(0);
     format!("ev {} ; crashed open:{} file:{} attached:{} fresh:{} ; restarted{} inode_same:{} len:{} fresh:{} attached:{} mode:{:o}",
-        ev, open1, len1, att1, fresh1_t, if r.is_err() { "-panic" } else { "" }, (inode_before != 0 && inode_before == inode_after) as u8, len2, fresh_t, att2, mode)
+        ev, open1, len1, att1, fresh1_t, if r.is_err() { if uid { "-refused" } else { "-panic" } } else { "" }, (inode_before != 0 && inode_before == inode_after) as u8, len2, fresh_t, att2, mode)
 }
 
 pub fn grid() -> Vec<String> {
@@ -148,6 +167,15 @@ pub fn grid() -> Vec<String> {
         for k in 0..24 { v.push(format!("crashpt {} {} 1 2", p, k)); }
     }
     // the same restart over a valid segment whose file is old / whose name is not UTF-8
+    // the restart under a service account that owns the directory but not the file
+    for p in ["valid 4 90", "valid 7 91", "validv 3 6 95", "foreign 4 97", "garbage", "wiped"] {
+        for k in [0, 5, 12, 18, 30] { v.push(format!("crashpt @uid {} {} 1 2", p, k)); }
+    }
+    for m in ["@link", "@link @old"] {
+        for p in ["valid 4 90", "valid 7 91", "wiped", "missing", "foreign 4 97"] {
+            for k in [0, 5, 12, 18, 30] { v.push(format!("crashpt {} {} {} 1 2", m, p, k)); }
+        }
+    }
     for m in ["@old", "@bin", "@old @bin"] {
         for p in ["valid 4 90", "valid 7 91", "wiped", "missing", "foreign 4 97"] {
             for k in [0, 12, 18, 30] { v.push(format!("crashpt {} {} {} 1 2", m, p, k)); }
